@@ -211,7 +211,7 @@ var summaryBytes = map[string]Summary{
 	},
 	// func (b *Buffer) WriteTo(w io.Writer) (n int64, err error)
 	"(*bytes.Buffer).WriteTo": {
-		[][]int{{0}, {0, 1}},
+		[][]int{{0, 1}, {1}},
 		[][]int{{0}, {0}},
 	},
 	// func (r *Reader) Seek(offset int64, whence int) (int64, error)
